@@ -4,7 +4,9 @@ package interp
 // explore a harness function.
 
 import (
+	"encoding/json"
 	"fmt"
+	"path/filepath"
 	"go/token"
 	"go/types"
 	"os"
@@ -190,6 +192,107 @@ type RunOptions struct {
 
 // LastFrontier holds the pending prefixes after a phase-1 run.
 var LastFrontier [][]Decision
+
+// ExploreQueue explores fn as one of several cooperating workers sharing a directory queue of
+// decision prefixes (dynamic load balancing): claim a chunk, explore at most chunkPaths paths below
+// it, hand the unexplored rest back as new chunks.
+func (p *Program) ExploreQueue(fn *ssa.Function, opt RunOptions, dir string, worker int, chunkPaths int) (*Result, error) {
+	s, err := NewSolver(opt.SolverBin, opt.TimeoutMs, nil)
+	if err != nil {
+		return nil, err
+	}
+	defer s.Close()
+	IntMode, RealMode = opt.IntMode, opt.RealMode
+	e := NewEngine(s, fn.Name())
+	e.Known = opt.Known
+	e.Deadline = time.Now().Add(opt.Deadline)
+	if opt.MaxSteps > 0 {
+		e.MaxSteps = opt.MaxSteps
+	}
+	e.MaxTraces = opt.MaxTraces
+	e.ChunkPaths = chunkPaths
+	eng = e
+	undoOn = true
+	defer func() { undoOn = false }()
+	run := func() {
+		p.restoreGlobals()
+		resetRuntime()
+		defer func() {
+			if sched != nil && len(sched.threads) > 1 {
+				sched.killAll()
+			}
+			rollback()
+		}()
+		call(p.I, nil, token.NoPos, fn, nil)
+	}
+	busy := filepath.Join(dir, fmt.Sprintf("busy_%d", worker))
+	seq := 0
+	idle := 0
+	for {
+		if time.Now().After(e.Deadline) {
+			e.noteInconclusive("time budget exceeded (shared queue)")
+			break
+		}
+		names, _ := filepath.Glob(filepath.Join(dir, "p_*.json"))
+		claimed := ""
+		for _, n := range names {
+			c := filepath.Join(dir, fmt.Sprintf("c_%d_%s", worker, filepath.Base(n)))
+			os.WriteFile(busy, nil, 0o644)
+			if os.Rename(n, c) == nil {
+				claimed = c
+				break
+			}
+		}
+		if claimed == "" {
+			os.Remove(busy)
+			others, _ := filepath.Glob(filepath.Join(dir, "busy_*"))
+			if len(others) == 0 {
+				idle++
+				if idle >= 3 {
+					break
+				}
+			} else {
+				idle = 0
+			}
+			time.Sleep(40 * time.Millisecond)
+			continue
+		}
+		idle = 0
+		b, err := os.ReadFile(claimed)
+		os.Remove(claimed)
+		if err != nil {
+			continue
+		}
+		var pre [][]Decision
+		if json.Unmarshal(b, &pre) != nil || len(pre) == 0 {
+			continue
+		}
+		e.Initial = pre
+		e.Explore(run)
+		if rest := e.Frontier; len(rest) > 0 {
+			// hand back in up to 6 chunks
+			k := 6
+			if len(rest) < k {
+				k = len(rest)
+			}
+			for i := 0; i < k; i++ {
+				var part [][]Decision
+				for j := i; j < len(rest); j += k {
+					part = append(part, rest[j])
+				}
+				pb, _ := json.Marshal(part)
+				seq++
+				tmp := filepath.Join(dir, fmt.Sprintf("t_%d_%d", worker, seq))
+				os.WriteFile(tmp, pb, 0o644)
+				os.Rename(tmp, filepath.Join(dir, fmt.Sprintf("p_%d_%d.json", worker, seq)))
+			}
+		}
+		os.Remove(busy)
+	}
+	os.Remove(busy)
+	e.Res.Vacuous = false
+	return e.Res, nil
+}
 
 // Explore runs harness function fn (no parameters) over all feasible paths.
 func (p *Program) Explore(fn *ssa.Function, opt RunOptions) (*Result, error) {
